@@ -283,7 +283,9 @@ func (m *c08Step) ruleReceive(t *rapid.T) {
 }
 
 func (m *c08Step) ruleDeregister(t *rapid.T) {
-	s := m.pick("deregSlot", func(s *c08Slot) bool { return s.state == "idle" || (s.state == "receiving" && !(m.sending() && s.round == m.round)) })
+	s := m.pick("deregSlot", func(s *c08Slot) bool {
+		return s.state == "idle" || (s.state == "receiving" && !(m.sending() && s.round == m.round))
+	})
 	if s == nil {
 		t.Skip("nothing to deregister")
 	}
@@ -474,12 +476,12 @@ func TestC08CasterFree(t *testing.T) {
 		vkit.CaseStart(func() string { return strings.Join(trace, " ; ") })
 
 		var (
-			mu        sync.Mutex
-			received  = map[int]int{} // token -> receipts
-			returned  = map[int]int{} // token -> Send return
-			adds      int64
-			deregs    int64
-			panics    []string
+			mu       sync.Mutex
+			received = map[int]int{} // token -> receipts
+			returned = map[int]int{} // token -> Send return
+			adds     int64
+			deregs   int64
+			panics   []string
 		)
 		rapid.SyncTest(t, func(t *rapid.T) {
 			x := bigbuff.NewChanCaster(make(chan int))
